@@ -20,17 +20,17 @@ CHECKS = {
  "C01": dict(
    engine="world",
    category="exploration",
-   text="Seeded simulation of update histories (1-3 real Mineral objects, seeded partition/interleaving/regime switching/restart-through-store/faulted updates); count, shape, simplex, range, orthonormality-bound, immutability and seed-reproducibility clauses are checked on every mineral after every op against a reference model holding copies and hashes of every snapshot ever stored. Evidence over the seeds explored, not proof.",
+   text="Seeded simulation of update histories (1-3 real Mineral objects; seeded partition, interleaving, regime switching, restart through the store, faulted updates and retries, bulk updates failing part-way over histories of different lengths, overlapped caller threads, time origins up to 1e6, rotation-dominated / compact-support / PyDRex's own flows and pathlines, solver kwargs); count, shape, simplex, range, orthonormality-bound, immutability and seed-reproducibility clauses are checked on every mineral after every op against a reference model holding copies and hashes of every snapshot ever stored. Evidence over the seeds explored, not proof.",
    design_ref="DESIGN.md 4.1",
-   note="scipy LSODA trusted as a black box; updates that raise without an injected fault count as rejected (coverage floor: >= 50% of fault-free updates must complete); matrix_diffusion orthonormality loss is a listed known finding",
+   note="scipy LSODA trusted as a black box; updates that raise without an injected fault count as rejected (coverage floor: >= 50% of fault-free updates must complete); two listed known findings for the orthonormality clause (matrix_diffusion regime; > 6 rad of rigid rotation at tiny strain) are matched narrowly and printed as KNOWN-FINDING lines",
    technique="deterministic simulation: seeded histories with fault injection, invariants after every event",
  ),
  "C07": dict(
    engine="world",
    category="fault_enumeration",
-   text="Faults (callback raises, malformed / non-finite return values, unsupported regime from get_regime, solver reporting failure, params key vanishing, phase missing from the assemblage) are injected inside real update_orientations calls at instants found by dry-running the update on a never-faulted twin; for up to two updates per run the fault is injected at EVERY callback / solver-step / key-read index (<= 64 instants, else evenly spread). After each injection: the call raised and the history lists are the same objects with unchanged length and unchanged snapshot hashes on every mineral of the world, or the call succeeded with the complete result of the twin; the first fault-free retry reproduces the twin within the solver-step budget. Rejection clause: unsupported and out-of-range regimes (also appearing mid-interval), mismatched fabrics, invalid phases must raise. Null-forcing clause: L == 0, gated-to-zero L, viscosity-bound regimes and M* = 0 histories leave orientations / fractions unchanged to 1e-12 (modulo the documented floor-and-renormalise of grains below the sliding threshold) while F follows the reference integrator.",
+   text="Faults (callback raises one of eight exception types incl. a BaseException subclass, malformed / non-finite return values, unsupported regime from get_regime, solver reporting failure, params key vanishing, phase missing from the assemblage; also inside bulk updates, which must then have appended to a prefix of the mineral list only, and while another caller thread's update is in flight) are injected inside real update_orientations calls at instants found by dry-running the update on a never-faulted twin; for up to two updates per run the fault is injected at EVERY callback / solver-step / key-read index (<= 64 instants, else evenly spread). After each injection: the call raised and the history lists are the same objects with unchanged length and unchanged snapshot hashes on every mineral of the world, or the call succeeded with the complete result of the twin; the first fault-free retry reproduces the twin within the solver-step budget. Rejection clause: unsupported and out-of-range regimes (also appearing mid-interval), mismatched fabrics, invalid phases must raise under any flow including L == 0 and rigid rotation. Null-forcing clause: L == 0, gated-to-zero L, viscosity-bound regimes and M* = 0 histories (M* also switched to zero in place part-way) leave orientations / fractions unchanged to 1e-12 (modulo the documented floor-and-renormalise of grains below the sliding threshold) while F follows the reference integrator.",
    design_ref="DESIGN.md 4.5",
-   note="asynchronous exceptions between bytecodes are not injected; scipy LSODA trusted; for non-finite/malformed L the only demand is 'if it raises, history is untouched'; mismatched (phase, fabric) only required to be rejected in dislocation-type regimes",
+   note="asynchronous exceptions between bytecodes are not injected; scipy LSODA trusted; for non-finite/malformed L the only demand is 'if it raises, history is untouched'; mismatched (phase, fabric) only required to be rejected in dislocation-type regimes; known finding KF-C07-contracting-map (F sub-clause under strongly compressing flows) matched narrowly",
    technique="deterministic simulation: fault injection enumerated over every collaborator call index of an update, reference twin",
  ),
  "C06": dict(
@@ -84,7 +84,7 @@ CHECKS = {
  "C17": dict(
    engine="simstore",
    category="exploration",
-   text="Seeded save/load histories over several real NPZ archives in a private directory are checked operation by operation against an in-memory reference map (archive, postfix) -> saved state: loads through Mineral.from_file and Mineral.load (into existing objects whose phase, fabric, regime, grain count and history differ) must restore phase, fabric, regime, grain count and every snapshot bytewise (NaN payloads, infinities, -0.0, denormals); after every operation every judged key of every archive is re-loaded (isolation); restarts drop all in-memory objects; rejected operations injected at arbitrary points (unequal snapshot counts, array sizes != grain count, non-NPZ names; fresh path / existing archive / missing parent directory) must raise ValueError and leave the file-system snapshot (tree, sizes, content hashes) unchanged.",
+   text="Seeded save/load histories over several real NPZ archives in a private directory are checked operation by operation against an in-memory reference map (archive, postfix) -> saved state: loads through Mineral.from_file and Mineral.load (into existing objects whose phase, fabric, regime, grain count and history differ) must restore phase, fabric, regime, grain count and every snapshot bytewise (NaN payloads, infinities, -0.0, denormals); after every operation every judged key of every archive is re-loaded (isolation); restarts drop all in-memory objects; 37 postfix shapes (punctuation, blanks, path separators, unicode, non-string), absolute and cwd-relative file names; rejected operations injected at arbitrary points (unequal snapshot counts, array sizes != grain count, non-NPZ names; fresh path / existing archive / missing parent directory) must raise ValueError and leave the file-system snapshot (tree, sizes, content hashes) unchanged.",
    design_ref="DESIGN.md 4.9",
    note="judged: whole-file save loaded back with nothing in between, and distinct-postfix saves into postfix-only archives; mixing whole-file and postfix saves, postfix re-use, non-.npz save names and crash consistency under I/O errors are generated/observed but not judged (statement silent)",
    technique="deterministic simulation: seeded operation histories against a reference store model with injected rejected operations",
@@ -93,7 +93,7 @@ CHECKS = {
 
 def build():
     checks = []
-    for pid, c in CHECKS.items():
+    for pid, c in sorted(CHECKS.items()):
         checks.append({
             "property_id": pid,
             "quick_cmd": f"./check {pid} --tier quick",
